@@ -234,7 +234,10 @@ func cmdCheck(args []string) int {
 			sums = append(sums, s)
 			continue
 		}
-		nOb++
+		probe := strings.Contains(n, "!") // known-finding probe: expected to fail, not part of the claim
+		if !probe {
+			nOb++
+		}
 		ok := true
 		var firstFail *eng.Obligation
 		for _, ob := range a.obs {
@@ -259,7 +262,14 @@ func cmdCheck(args []string) int {
 			maxTime = s.MaxTime
 		}
 		if ok {
-			nDis++
+			if !probe {
+				nDis++
+			} else {
+				s.Status = "known-finding-probe-discharged (finding no longer present)"
+			}
+		} else if probe && isKnown(n) != nil {
+			s.Status = "known-finding-probe (fails as recorded)"
+			failing = append(failing, firstFail)
 		} else {
 			s.Status = "FAILED(" + firstFail.Status + ")"
 			failing = append(failing, firstFail)
@@ -342,7 +352,7 @@ func writeEvidence(verif string, pd *PropDef, tier string, seed int, t0 time.Tim
 	}
 	nOb, nDis := 0, 0
 	for _, s := range sums {
-		if s.Status == "cover-ok" || s.Status == "VACUOUS" {
+		if s.Status == "cover-ok" || s.Status == "VACUOUS" || strings.HasPrefix(s.Status, "known-finding-probe") {
 			continue
 		}
 		nOb++
